@@ -24,7 +24,7 @@ import (
 
 // processor result kinds
 const (
-	vkSingle = iota
+	vkSingle      = iota
 	vkSingleRepos // single, with the record position rewritten
 	vkFilter
 	vkError
@@ -47,14 +47,14 @@ const (
 )
 
 type vWorld struct {
-	mu      sync.Mutex
-	N       int
-	leaves  [][]string // per source record: lineage ids of the pieces that must reach every destination
-	errored []bool     // a processor returned an error for (a piece of) the record
-	src     *vSource
-	dests   []*vDest
-	dlq     *vDest
-	procs   []*vProc
+	mu             sync.Mutex
+	N              int
+	leaves         [][]string // per source record: lineage ids of the pieces that must reach every destination
+	errored        []bool     // a processor returned an error for (a piece of) the record
+	src            *vSource
+	dests          []*vDest
+	dlq            *vDest
+	procs          []*vProc
 	allowBadShapes bool
 	dlqSize, dlqTh int
 }
@@ -120,17 +120,17 @@ func (w *vWorld) replaceLeaf(lineage string, with []string) {
 // ---- source ----
 
 type vSource struct {
-	w       *vWorld
-	recs    []opencdc.Record
-	reads   int
-	acked   []int // source indices acked, in order
-	ackErr  bool
+	w        *vWorld
+	recs     []opencdc.Record
+	reads    int
+	acked    []int // source indices acked, in order
+	ackErr   bool
 	tornDown int
 }
 
-func (s *vSource) ID() string                   { return "src" }
-func (s *vSource) Open(context.Context) error   { return nil }
-func (s *vSource) Errors() <-chan error         { return nil }
+func (s *vSource) ID() string                     { return "src" }
+func (s *vSource) Open(context.Context) error     { return nil }
+func (s *vSource) Errors() <-chan error           { return nil }
 func (s *vSource) Teardown(context.Context) error { s.tornDown++; return nil }
 
 func (s *vSource) Read(ctx context.Context) ([]opencdc.Record, error) {
